@@ -985,7 +985,13 @@ class EventBus:
                 )
 
         # Execute handlers
-        await self._execute_handlers(event, handlers=applicable_handlers, timeout=timeout)
+        try:
+            await self._execute_handlers(event, handlers=applicable_handlers, timeout=timeout)
+        except asyncio.CancelledError:
+            # interrupted by a parent handler's timeout while being processed inline: the handlers that were
+            # running have recorded their error; whoever is waiting on this event must still be released
+            event.event_mark_complete_if_all_handlers_completed()
+            raise
 
         await self._default_log_handler(event)
         await self._default_wal_handler(event)
